@@ -249,6 +249,113 @@ func genShared(r *vh.Rand, n int) []string {
 	return out
 }
 
+// requests of several instances from one http provider whose decoded ammo are delivered again and again
+var shareKeys = []string{"Date", "X-Ts", "X-Session", "Accept", "Created-Date"}
+var shareVals = []string{"recorded", "Thu, 01 Jan 1970 00:00:00 GMT", "v1", "a b", "text/plain", "0"}
+
+func genShare(r *vh.Rand) string {
+	dec := r.Pick([]string{"uri", "uri", "uripost", "raw", "jsonline", "jsonarr", "jsonarr"})
+	preload := r.Chance(3, 4)
+	// middlewares: mostly the default header name; sometimes two (same or different header)
+	mwKeys := []string{r.Pick([]string{"Date", "Date", "X-Ts", "Created-Date"})}
+	if r.Chance(1, 4) {
+		mwKeys = append(mwKeys, r.Pick([]string{mwKeys[0], "X-Ts", "Date"}))
+	}
+	var mws []string
+	for _, k := range mwKeys {
+		kh := vh.HexS(k)
+		if k == "Date" && r.Chance(2, 3) {
+			kh = "-"
+		}
+		mws = append(mws, fmt.Sprintf("%s.%d", kh, r.PickInt([]int{0, 0, 1, 2, 3, 4})))
+	}
+	// where the ammo already carries the middleware's header: file, config (1..3 values; 17 values is the
+	// first count for which append([]string(nil), vv...) leaves spare capacity), both, nowhere
+	var cfg, file []string
+	used := map[string]bool{}
+	for _, k := range mwKeys {
+		if used[k] {
+			continue
+		}
+		used[k] = true
+		switch r.Intn(8) {
+		case 0, 1, 2:
+			file = append(file, vh.HexS(k)+"="+vh.HexS(r.Pick(shareVals)))
+		case 3, 4:
+			for n := r.PickInt([]int{1, 1, 2, 3}); n > 0; n-- {
+				cfg = append(cfg, vh.HexS(k)+"="+vh.HexS(r.Pick(shareVals)))
+			}
+		case 5:
+			file = append(file, vh.HexS(k)+"="+vh.HexS(r.Pick(shareVals)))
+			cfg = append(cfg, vh.HexS(k)+"="+vh.HexS(r.Pick(shareVals)))
+		case 6:
+			for n := r.PickInt([]int{4, 16, 17, 18}); n > 0; n-- {
+				cfg = append(cfg, vh.HexS(k)+"="+vh.HexS(r.Pick(shareVals)))
+			}
+		}
+	}
+	for _, k := range shareKeys {
+		if used[k] {
+			continue
+		}
+		if r.Chance(1, 4) {
+			file = append(file, vh.HexS(k)+"="+vh.HexS(r.Pick(shareVals)))
+		}
+		if r.Chance(1, 4) {
+			for n := r.Range(1, 2); n > 0; n-- {
+				cfg = append(cfg, vh.HexS(k)+"="+vh.HexS(r.Pick(shareVals)))
+			}
+		}
+	}
+	join := func(xs []string) string {
+		if len(xs) == 0 {
+			return "-"
+		}
+		return strings.Join(xs, ",")
+	}
+	nammo := r.Range(1, 3)
+	ninst := r.Range(2, 4)
+	// plan: some instances acquire and wait for their schedule; the clock moves on; others acquire; ...; everybody shoots
+	var ops []string
+	held := map[int]bool{}
+	waits := 0
+	for step := r.Range(3, 8); step > 0; step-- {
+		i := r.Intn(ninst)
+		if held[i] {
+			if r.Chance(1, 2) {
+				ops = append(ops, fmt.Sprintf("r%d", i))
+				delete(held, i)
+			}
+			continue
+		}
+		if len(held) > 0 && waits < 2 && r.Chance(2, 3) {
+			ops = append(ops, "w")
+			waits++
+		}
+		ops = append(ops, fmt.Sprintf("a%d", i))
+		held[i] = true
+	}
+	if waits == 0 && len(held) > 0 {
+		for i := 0; i < ninst; i++ {
+			if !held[i] {
+				ops = append(ops, "w", fmt.Sprintf("a%d", i))
+				held[i] = true
+				break
+			}
+		}
+	}
+	for i := 0; i < ninst; i++ {
+		if held[i] {
+			ops = append(ops, fmt.Sprintf("r%d", i))
+		}
+	}
+	// one more delivery of every stored ammo: what a later pass sees
+	for j := 0; j < nammo; j++ {
+		ops = append(ops, "a0", "r0")
+	}
+	return fmt.Sprintf("hshare %s %s %s %s %s %d %s", dec, vh.B(preload), strings.Join(mws, ","), join(cfg), join(file), nammo, strings.Join(ops, ","))
+}
+
 func gen(r *vh.Rand, tier string) []string {
 	switch tier {
 	case "race-quick":
@@ -275,6 +382,9 @@ func gen(r *vh.Rand, tier string) []string {
 	}
 	for i := 0; i < 4+n/100; i++ {
 		out = append(out, genCfg(r, r.Range(1, 4)))
+	}
+	for i := 0; i < 40+n/4; i++ {
+		out = append(out, genShare(r))
 	}
 	out = append(out, genShared(r, 16+n/10)...)
 	for i := 0; i < n/2; i++ {
